@@ -176,6 +176,16 @@ func evalSingle(e *lib.Env, idx int, c *Case) {
 			c.Dropped = "watchdog (180 s) on a single case"
 			return
 		}
+		if o.res.Err != nil {
+			c.Dropped = "could not start the CLI: " + o.res.Err.Error()
+			return
+		}
+		if o.res.Signal != "" {
+			// Go reports its own crashes (nil dereference, stack overflow, fatal error) with a
+			// trace and exit status 2; a death by signal comes from outside (OOM killer, …)
+			c.Dropped = "CLI killed by signal " + o.res.Signal
+			return
+		}
 		res, ok := collect(o, it)
 		if !ok {
 			dk := deathKind(o)
